@@ -1570,10 +1570,11 @@ func (n *RootNode) Render(w io.Writer, ctx *RenderContext) error {
 	// If this template extends another, handle that first
 	if extendsNode != nil {
 		// Nothing but the blocks of an extending template is rendered, but its
-		// blocks call the macros it imports: run its import tags
+		// blocks call the macros it imports and read the variables it sets:
+		// run its import and set tags
 		for _, child := range n.children {
 			switch child.(type) {
-			case *ImportNode, *FromImportNode:
+			case *ImportNode, *FromImportNode, *SetNode:
 				if err := child.Render(io.Discard, ctx); err != nil {
 					return err
 				}
